@@ -66,6 +66,11 @@ CHECKS = {
     text="Kernel-checked: the monitored run is the machine's run for every program/oracle/fuel/state; for EVERY function body of the emitted shape that makes a call, add_ra_instructions (fixed-slot) yields one push ra on entry and one pop ra after the end label, so every exit (early returns jump to the end label) restores ra; functions without calls or returns are untouched. The model of add_ra_instructions (both conventions) is compared with the real method on 1000+ synthetic instruction lists. Generated programs with functions (arities 0-3, early returns, calls in expressions) are compiled under five option sets; every executed return is checked by the monitor (returns to the call being served, stack-pointer delta 0 / -args+result) and effect traces are compared with the source.",
     note="Trusted: Coq kernel; Machine.v/Monitor.v; RaInsert.v abstraction of instructions; generator's arities; hook. Monitored runs bounded and sampled. Push/pop placement has no shape theorem (correspondence only). Open known findings: consequences of C07 fall-through, tail call after an inner call.",
     design="4 C06"),
+ "C14": dict(
+    category="proof", technique="Coq: verified outcome analysis of control skeletons (soundness for every skeleton, environment and execution) evaluated on the regenerated skeletons of process_input and main + scripted-stdin runs of the real daemon under five interpreter environments",
+    text="The statement structure of process_input and main is re-read from mod_daemon.py on every run. A small operational semantics of such skeletons (any expression not listed as safe may raise any Exception subclass; one tracked variable) and an analysis of all possible (outcome, replies written) pairs are defined in Coq with a kernel-checked soundness theorem over all skeletons/executions. Evaluated on the regenerated skeletons the kernel checks: on a non-empty line every path returns normally with exactly one reply written; an empty line writes nothing; the main loop lets no exception escape and makes stdin lenient before reading; the only statement writing to the saved stdout is the reply and stdout is redirected at import. The real daemon is run on generated request histories (22 request kinds incl. undecodable bytes, blank lines, EXIT/EOF variants) under five environments; count, order, decodability and class of replies are checked.",
+    note="Trusted: Coq kernel; SkelSem.v semantics and the listed non-raising assumptions (SkelEnvs.v); translator skeletons.py. BaseException-only exceptions, OS pipes and buffering are outside the model (exercised by the process runs only). The per-line theorem and the loop structure are connected by reading, not by a machine-checked composition.",
+    design="4 C14"),
 }
 
 NOT_YET = {}
